@@ -260,8 +260,8 @@ def check(prop, tier, replay=None):
 MC_PLAN = {
     "C02": [("MC_Cal", "MC_Cal.cfg", "MC_CalFull.cfg", "+2w", "trace")],
     "C07": [("MC_Core", "MC_Core.cfg", "MC_CoreFull.cfg", "+1w", "final"), ("MC_Tree", "MC_Tree.cfg", "MC_TreeFull.cfg", "+1w", "final"),
-            ("MC_Week", "MC_WeekTiny.cfg", "MC_WeekFull.cfg", "+22d", "final")],
-    "C10": [("MC_Tree", "MC_Tree.cfg", "MC_TreeFull.cfg", "+1w", "trace")],
+            ("MC_Week", "MC_WeekTiny.cfg", "MC_WeekFull.cfg", "+22d", "final"), ("MC_Events", "MC_Events.cfg", "MC_Events.cfg", "+1w", "final")],
+    "C10": [("MC_Tree", "MC_Tree.cfg", "MC_TreeFull.cfg", "+1w", "trace"), ("MC_Events", "MC_Events.cfg", "MC_Events.cfg", "+1w", "trace")],
     "C01": [("MC_SubSlot", "MC_SubSlotTiny.cfg", "MC_SubSlot.cfg", "+1w", "trace"), ("MC_Team", None, "MC_Team.cfg", "+1w", "trace")],
     "C03": [("MC_SubSlot", None, "MC_SubSlot.cfg", "+1w", "trace"), ("MC_Alt", "MC_Alt.cfg", "MC_AltFull.cfg", "+1w", "trace"),
             ("MC_Team", "MC_TeamTiny.cfg", "MC_TeamFull.cfg", "+1w", "trace")],
